@@ -1,5 +1,401 @@
 package check
 
-// gatedShapeRules: C17.scan, C17.flush, C17.first and the C11 container rules.
+import (
+	"fmt"
+	"go/token"
+	"go/types"
+	"strings"
+
+	"golang.org/x/tools/go/ssa"
+)
+
+func init() { Register("C11", runC11) }
+
+const (
+	listRemove   = "(*container/list.List).Remove"
+	listPushBack = "(*container/list.List).PushBack"
+)
+
+func isDeleteOf(ci ssa.CallInstruction, tb *Terms, field string) bool {
+	b, ok := ci.Common().Value.(*ssa.Builtin)
+	if !ok || b.Name() != "delete" {
+		return false
+	}
+	t := tb.Of(ci.Common().Args[0])
+	return t.Is("Field", field)
+}
+
+// gatedShapeRules: C17.scan, C17.flush, C17.first (prefix "C17") and, shared,
+// the cleanup rule used by both C11 and C17.
 func (c *Ctx) gatedShapeRules(prefix string) {
+	p, r := c.P, c.R
+	tb := p.NewTerms(nil)
+	proc := c.Fn(prefix+".anchor", PkgGated, "Filter", "Process")
+	scan := c.Fn(prefix+".anchor", PkgGated, "Filter", "processExpiredEvents")
+	flush := c.Fn(prefix+".anchor", PkgGated, "Filter", "FlushAll")
+	cls := c.Fn(prefix+".anchor", PkgGated, "Filter", "Close")
+	open := c.Fn(prefix+".anchor", PkgGated, "Filter", "openGate")
+	if proc == nil || scan == nil || flush == nil || cls == nil || open == nil {
+		return
+	}
+	isOpen := func(n string, cc *ssa.CallCommon) bool { return cc.StaticCallee() == open }
+
+	// --- scan
+	{
+		rule := prefix + ".scan"
+		calls := callsTo(scan, isOpen)
+		if len(calls) != 1 {
+			r.Bad(rule, "processExpiredEvents:open", p.Pos(scan.Pos()), fmt.Sprintf("%d openGate calls in the expiry scan (expected 1, in the loop)", len(calls)))
+		} else {
+			oc := calls[0]
+			full, why := c.fullLoop(oc, true)
+			r.Check(full, rule, "processExpiredEvents:loop", p.InstrPos(oc), "the scan visits every list element; exits: exhausted or error return", "the expiry scan does not visit every element: "+why)
+			// the gate opened is the loop element's value; guarded by Now().After(ge.exp)
+			ge := tb.Of(oc.Common().Args[2])
+			okGe := ge.Op == "Assert" && strings.HasSuffix(ge.Name, "gatedEvent") && ge.Args[0].Is("Field", "Value")
+			cond, tsucc, _ := condOf(oc.Block().Idom())
+			okCond := false
+			if cond != nil {
+				ct := tb.Of(cond)
+				if ct.Op == "Call" && ct.Name == "(time.Time).After" && len(ct.Args) == 2 &&
+					ct.Args[0].Op == "Call" && ct.Args[0].Name == "(*filters/gated.Filter).Now" &&
+					ct.Args[1].Is("Field", "exp") && ct.Args[1].Args[0].V == ge.V && (tsucc == oc.Block() || tsucc.Dominates(oc.Block())) {
+					okCond = true
+				}
+			}
+			r.Check(okGe && okCond, rule, "processExpiredEvents:expired-branch", p.InstrPos(oc), "openGate(ctx, element value) exactly when w.Now().After(ge.exp)", "the gate is not opened exactly for elements with w.Now().After(ge.exp): gate="+ge.String())
+			// every return inside the loop region is an error return
+			c.errorFlowRule(rule, scan, nil, false)
+		}
+		// same clock for the stamp: Process stamps with (*Filter).Now().Add(Expiration)
+		stamped := false
+		eachInstr(proc, func(in ssa.Instruction) {
+			if st, ok := in.(*ssa.Store); ok {
+				if fa, ok := st.Addr.(*ssa.FieldAddr); ok && typeShort(fa.X.Type()) == "gated.gatedEvent" {
+					if fa.X.Type().Underlying().(*types.Pointer).Elem().Underlying().(*types.Struct).Field(fa.Field).Name() == "exp" {
+						t := tb.Of(st.Val)
+						if t.Op == "Call" && t.Name == "(time.Time).Add" && t.Args[0].Op == "Call" && t.Args[0].Name == "(*filters/gated.Filter).Now" && t.Args[1].Is("Field", "Expiration") {
+							stamped = true
+						} else {
+							r.Bad(rule, "Process:exp-stamp", p.InstrPos(st), "the expiry stamp is "+t.String()+", not w.Now().Add(w.Expiration)")
+						}
+					}
+				}
+			}
+		})
+		r.Check(stamped, rule, "Process:exp-stamp", p.Pos(proc.Pos()), "groups are stamped with w.Now().Add(w.Expiration): same clock as the scan", "no expiry stamp w.Now().Add(w.Expiration) found")
+	}
+	// --- flush
+	{
+		rule := prefix + ".flush"
+		calls := callsTo(flush, isOpen)
+		if len(calls) != 1 {
+			r.Bad(rule, "FlushAll:open", p.Pos(flush.Pos()), fmt.Sprintf("%d openGate calls in FlushAll (expected 1, in the loop)", len(calls)))
+		} else {
+			oc := calls[0]
+			full, why := c.fullLoop(oc, true)
+			r.Check(full, rule, "FlushAll:loop", p.InstrPos(oc), "FlushAll opens the gate of every list element; exits: exhausted or error return", "FlushAll does not visit every element: "+why)
+			ge := tb.Of(oc.Common().Args[2])
+			r.Check(ge.Op == "Assert" && ge.Args[0].Is("Field", "Value"), rule, "FlushAll:gate", p.InstrPos(oc), "openGate(ctx, element value)", "FlushAll opens "+ge.String()+" instead of the loop element")
+			// unconditional inside the loop body: the call's block is entered from the loop test only
+			cond, tsucc, _ := condOf(oc.Block().Idom())
+			okUncond := cond != nil && tsucc == oc.Block()
+			if okUncond {
+				if bo, ok := cond.(*ssa.BinOp); !ok || !(isNilConst(bo.X) || isNilConst(bo.Y)) {
+					okUncond = false
+				}
+			}
+			r.Check(okUncond, rule, "FlushAll:unconditional", p.InstrPos(oc), "every element's gate is opened unconditionally", "the gate is opened only under an extra condition inside the loop")
+		}
+		// no-broker: both containers reset together
+		resets := map[string]ssa.Instruction{}
+		eachInstr(flush, func(in ssa.Instruction) {
+			if st, ok := in.(*ssa.Store); ok && isNilConst(st.Val) {
+				t := tb.Of(st.Addr)
+				if b, ok := t.IsFieldAddr("gated"); ok && b.IsParam("0:w") {
+					resets["gated"] = in
+				}
+				if b, ok := t.IsFieldAddr("orderedGated"); ok && b.IsParam("0:w") {
+					resets["orderedGated"] = in
+				}
+			}
+		})
+		okReset := len(resets) == 2 && resets["gated"].Block() == resets["orderedGated"].Block()
+		if okReset {
+			cond, tsucc, _ := condOf(resets["gated"].Block().Idom())
+			ct := tb.Of(cond)
+			okReset = cond != nil && tsucc == resets["gated"].Block() && ct.Op == "Bin" && ct.Name == "==" && ct.Args[0].Is("Field", "Broker")
+		}
+		r.Check(okReset, rule, "FlushAll:no-broker", p.Pos(flush.Pos()), "without a Broker both containers are reset together", "the no-Broker branch does not reset both containers together")
+		// Close reaches FlushAll unconditionally and returns its result
+		okClose := false
+		for _, ret := range Returns(cls) {
+			t := tb.Of(RetVals(ret)[0])
+			if t.Op == "Call" && t.Name == "(*filters/gated.Filter).FlushAll" && t.Args[0].IsParam("0:w") && t.Args[1].IsParam("1:ctx") && len(Returns(cls)) == 1 {
+				okClose = true
+			}
+		}
+		r.Check(okClose, rule, "Close", p.Pos(cls.Pos()), "Close returns FlushAll(ctx) unconditionally", "Close does not unconditionally return FlushAll(ctx)")
+		c.errorFlowRule(rule, flush, nil, false)
+	}
+	// --- first: the expiry scan dominates the insertion of the new event
+	{
+		rule := prefix + ".first"
+		scans := callsTo(proc, func(n string, cc *ssa.CallCommon) bool { return cc.StaticCallee() == scan })
+		var inserts []ssa.Instruction
+		eachInstr(proc, func(in ssa.Instruction) {
+			if mu, ok := in.(*ssa.MapUpdate); ok && tb.Of(mu.Map).Is("Field", "gated") {
+				inserts = append(inserts, in)
+			}
+			if st, ok := in.(*ssa.Store); ok {
+				if fa, ok := st.Addr.(*ssa.FieldAddr); ok && typeShort(fa.X.Type()) == "gated.gatedEvent" && !isFresh(fa.X) {
+					inserts = append(inserts, in)
+				}
+			}
+		})
+		ok := len(scans) == 1 && len(inserts) >= 2
+		for _, ins := range inserts {
+			if len(scans) == 1 && !dominatesInstr(scans[0], ins) {
+				ok = false
+			}
+		}
+		pos := p.Pos(proc.Pos())
+		if len(scans) == 1 {
+			pos = p.InstrPos(scans[0])
+		}
+		r.Check(ok, rule, "Process:scan-before-insert", pos, "processExpiredEvents(ctx) dominates every insertion into the gate", "the expiry scan does not precede every insertion into the gate in Process")
+	}
+}
+
+// gatedCleanupRule: C11.cleanup / C11.pair
+func (c *Ctx) gatedContainerRules(prefix string) {
+	p, r := c.P, c.R
+	tb := p.NewTerms(nil)
+	// --- pair: insertions
+	for _, f := range p.FuncsIn(PkgGated) {
+		eachInstr(f, func(in ssa.Instruction) {
+			mu, ok := in.(*ssa.MapUpdate)
+			if !ok || !tb.Of(mu.Map).Is("Field", "gated") {
+				return
+			}
+			r.SawFn(p.ShortFn(f))
+			// same block: PushBack(list, value) whose result is stored in value.element
+			okPair := false
+			for _, x := range in.Block().Instrs {
+				pb, ok := x.(*ssa.Call)
+				if !ok || pb.Call.StaticCallee() == nil || pb.Call.StaticCallee().String() != listPushBack {
+					continue
+				}
+				if !tb.Of(pb.Call.Args[0]).Is("Field", "orderedGated") || stripConv(pb.Call.Args[1]) != stripConv(mu.Value) {
+					continue
+				}
+				for _, ref := range nonDebugRefs(pb) {
+					if st, ok := ref.(*ssa.Store); ok {
+						if fa, ok := st.Addr.(*ssa.FieldAddr); ok && fa.X == stripConv(mu.Value) {
+							okPair = true
+						}
+					}
+				}
+			}
+			r.Check(okPair, prefix+".pair", p.ShortFn(f)+":insert", p.InstrPos(in), "map insertion paired with PushBack of the same group, element stored in the group",
+				"a group is inserted into the id map without being pushed onto the ordered list (or its element is not recorded): expiry/FlushAll would never see it")
+		})
+	}
+	// --- pair/cleanup: removals
+	nRem := 0
+	for _, f := range p.FuncsIn(PkgGated) {
+		var dels, rems []ssa.CallInstruction
+		eachInstr(f, func(in ssa.Instruction) {
+			ci, ok := in.(ssa.CallInstruction)
+			if !ok {
+				return
+			}
+			if isDeleteOf(ci, tb, "gated") {
+				dels = append(dels, ci)
+			}
+			if sc := ci.Common().StaticCallee(); sc != nil && sc.String() == listRemove {
+				rems = append(rems, ci)
+			}
+		})
+		if len(dels) == 0 && len(rems) == 0 {
+			continue
+		}
+		nRem++
+		r.SawFn(p.ShortFn(f))
+		okPair := len(dels) == len(rems)
+		if okPair {
+			for i := range dels {
+				_, d1 := dels[i].(*ssa.Defer)
+				_, d2 := rems[i].(*ssa.Defer)
+				if dels[i].Block() != rems[i].Block() || d1 != d2 {
+					okPair = false
+				}
+			}
+		}
+		r.Check(okPair, prefix+".pair", p.ShortFn(f)+":remove", p.Pos(f.Pos()), fmt.Sprintf("%d removal(s): map delete and list Remove always together (same block, same deferral)", len(dels)),
+			"removal from the id map and from the ordered list are not paired on every path: the two containers can diverge (event lost or emitted twice)")
+		// cleanup: registered (deferred) before the first fallible call = composeFrom
+		comp := callsTo(f, func(n string, cc *ssa.CallCommon) bool {
+			return n == "dynamic" && tb.Of(cc.Value).Is("Field", "composeFrom")
+		})
+		if len(comp) == 0 {
+			r.Bad(prefix+".cleanup", p.ShortFn(f), p.Pos(f.Pos()), "removals without a composition call in the same function")
+			continue
+		}
+		for _, cc := range comp {
+			okClean := okPair
+			for i := range dels {
+				_, isD := dels[i].(*ssa.Defer)
+				if !isD || i >= len(rems) || !dominatesInstr(dels[i], cc) || !dominatesInstr(rems[i], cc) {
+					okClean = false
+				}
+			}
+			r.Check(okClean, prefix+".cleanup", p.ShortFn(f)+":deferred-removal", p.InstrPos(cc), "both removals are deferred before composition, so they also run when composition or sending fails",
+				"the group's removal is not deferred before the composition call: on a composition/send error the group stays gated and is emitted again later")
+			// removed ids/elements belong to the group being composed
+			_ = cc
+		}
+	}
+	if nRem < 2 {
+		r.Und(prefix+".pair", "instance-floor", "", "fewer than 2 removing functions found (Process, openGate)")
+	}
+}
+
+func runC11(c *Ctx) {
+	p, r := c.P, c.R
+	r.Explanation = "Decides the structural clauses of C11 on gated.Filter: all gate state (gated, orderedGated, composeFrom, Expiration, the groups' event slices) is accessed under Filter.l held for writing (pairwise lock-set discipline, including the unexported helpers' entry lock sets); insertions into the id map are paired with PushBack and removals from the map with list.Remove, both deferred before composition so they run on error too; in Process the incoming event is appended to its id's group before the flush test, composition receives exactly that group's slice, non-flush returns (nil,nil) and flush returns a fresh event built from composition's results; openGate sends only a payload proven not Gateable, with composition's type and payload unchanged; non-Gateable events are returned untouched before any lock, empty ids rejected; list iteration is safe (shared with C17). Exactly-once over long histories as such is not decided."
+	r.NotDecided = []string{"exactly-once delivery over arbitrary long histories (the rules are its per-step obligations)", "behaviour of user ComposeFrom implementations"}
+	c.lockControls()
+	c.errControls()
+	n := c.guardRule("C11.lock", []string{"gated.Filter", "gated.gatedEvent"}, nil, false)
+	if n < 5 {
+		r.Und("C11.lock", "instance-floor", "", fmt.Sprintf("only %d written fields decided (gated, orderedGated, composeFrom, Expiration, gatedEvent.events expected)", n))
+	}
+	c.gatedContainerRules("C11")
+	c.ruleGatedOrder()
+	c.ruleGatedNoGate("C11.nogate")
+	c.ruleGatedPass("C11.pass")
+	ni := 0
+	for _, f := range p.FuncsIn(PkgGated) {
+		ni += c.listIterRule("C11.iter", f, false)
+	}
+	if ni < 2 {
+		r.Und("C11.iter", "instance-floor", "", "fewer than 2 list loops found")
+	}
+	for _, f := range p.FuncsIn(PkgGated) {
+		if f.Name() == "Process" && f.Signature.Recv() != nil {
+			c.eNilRule("C11.enil", f, false)
+			c.errorFlowRule("C11.errors", f, nil, false)
+		}
+		if f.Name() == "openGate" {
+			c.errorFlowRule("C11.errors", f, nil, false)
+		}
+	}
+}
+
+// ruleGatedOrder: C11.order on the paths of Process.
+func (c *Ctx) ruleGatedOrder() {
+	p, r := c.P, c.R
+	const rule = "C11.order"
+	proc := c.Fn(rule, PkgGated, "Filter", "Process")
+	if proc == nil {
+		return
+	}
+	paths := c.enum(rule, proc, PathOpts{})
+	nFlush, nGate, nEmpty := 0, 0, 0
+	for _, pa := range paths {
+		ret, ok := pa.End.(*ssa.Return)
+		if !ok {
+			continue
+		}
+		rv := pa.RetVals()
+		// empty id -> (nil, error)
+		if pol, found := hasAtom(pa, func(at Atom) bool {
+			return at.Op == "eq" && at.L.Op == "Call" && at.L.Name == "invoke gated.Gateable.GetID" && at.R.Is("Const", `""`)
+		}); found && pol {
+			nEmpty++
+			if !(isNilConst(rv[0]) && !isNilConst(rv[1])) {
+				r.Bad(rule, "Process:empty-id", p.InstrPos(ret), "an event without an id is not rejected with (nil, error)")
+			}
+			continue
+		}
+		// locate the flush test
+		flushPol, flushFound := hasAtom(pa, func(at Atom) bool { return at.Op == "true" && at.L.Op == "Call" && at.L.Name == "invoke gated.Gateable.FlushEvent" })
+		if !flushFound {
+			continue // early exits (nil event, not gateable, scan error)
+		}
+		// index of the FlushEvent invoke and of the append-store
+		flushIdx, appendIdx := -1, -1
+		var appendStore *ssa.Store
+		for i, s := range pa.Steps {
+			switch x := s.In.(type) {
+			case *ssa.Call:
+				if calleeName(&x.Call) == "invoke gated.Gateable.FlushEvent" {
+					flushIdx = i
+				}
+			case *ssa.Store:
+				if fa, ok := x.Addr.(*ssa.FieldAddr); ok && typeShort(fa.X.Type()) == "gated.gatedEvent" && !isFresh(fa.X) {
+					appendIdx = i
+					appendStore = x
+				}
+			}
+		}
+		if appendStore == nil || appendIdx > flushIdx {
+			r.Bad(rule, "Process:append-before-flush", p.InstrPos(ret), "the incoming event is not appended to its group before the flush test (a flush event would be missing from its own composite)")
+			continue
+		}
+		stb := pa.TermsAt(pa.Steps[appendIdx])
+		tgt := stb.Of(appendStore.Addr)
+		val := stb.Of(appendStore.Val)
+		grp := "Lookup(Field[gated](Param(0:w)),Call[invoke gated.Gateable.GetID](Extract[0](Assert[gated.Gateable](Field[Payload](Param(2:e))))))"
+		okApp := tgt.Op == "FieldAddr" && tgt.Name == "events" && tgt.Args[0].String() == grp &&
+			val.Op == "Call" && val.Name == "builtin append" && val.Args[0].String() == "Field[events]("+grp+")" &&
+			val.Args[1].Op == "Varargs" && len(val.Args[1].Args) == 1 && val.Args[1].Args[0].IsParam("2:e")
+		if !okApp {
+			r.Bad(rule, "Process:append", p.InstrPos(appendStore), "the group update is "+tgt.String()+" = "+val.String()+"; expected gated[id].events = append(gated[id].events, e)")
+			continue
+		}
+		if !flushPol {
+			nGate++
+			if !(isNilConst(rv[0]) && isNilConst(rv[1])) {
+				r.Bad(rule, "Process:withhold", p.InstrPos(ret), "a non-flush Gateable event is not withheld with (nil, nil)")
+			}
+			continue
+		}
+		nFlush++
+		// flush: composition of that group's slice; result fresh event from composition
+		var comp *ssa.Call
+		for _, s := range pa.CallsOn() {
+			if ci, ok := s.In.(*ssa.Call); ok && calleeName(&ci.Call) == "dynamic" {
+				comp = ci
+			}
+		}
+		if comp == nil {
+			r.Bad(rule, "Process:flush-compose", p.InstrPos(ret), "flush path without a composition call")
+			continue
+		}
+		ltb := pa.TermsAt(pa.LastStep())
+		okComp := ltb.Of(comp.Call.Value).Is("Field", "composeFrom") && ltb.Of(comp.Call.Args[0]).String() == "Field[events]("+grp+")"
+		if !okComp {
+			r.Bad(rule, "Process:flush-compose", p.InstrPos(comp), "composition is "+ltb.Of(comp).String()+"; expected composeFrom(gated[id].events)")
+			continue
+		}
+		if isNilConst(rv[0]) {
+			// error path of composition
+			if isNilConst(rv[1]) {
+				r.Bad(rule, "Process:flush-result", p.InstrPos(ret), "flush path returns (nil, nil): the composite is dropped silently")
+			}
+			continue
+		}
+		al, isAlloc := rv[0].(*ssa.Alloc)
+		okRes := isAlloc && isNilConst(rv[1])
+		if okRes {
+			f := litFields(pa, al, len(pa.Steps))
+			okRes = ltb.Of(f["Type"]).String() == "Extract[0]("+ltb.Of(comp).String()+")" && ltb.Of(f["Payload"]).String() == "Extract[1]("+ltb.Of(comp).String()+")" &&
+				ltb.Of(f["Formatted"]).String() == "Make(map)"
+		}
+		r.Check(okRes, rule, "Process:flush-result", p.InstrPos(ret), "flush returns a fresh event {Type, Payload} = composition results, empty format table", "flush does not return a fresh event built from composition's type and payload")
+	}
+	r.Check(nFlush > 0 && nGate > 0 && nEmpty > 0, rule, "Process:rows", p.Pos(proc.Pos()), fmt.Sprintf("%d flush, %d withhold, %d empty-id paths checked", nFlush, nGate, nEmpty), "flush / withhold / empty-id paths not all found")
+	_ = token.ADD
 }
